@@ -22,10 +22,30 @@ def finish(ex, s):
     return M.Trace(ex, s)
 
 
+def allow_time(s, ex, n=1, max_ns=10 ** 10):
+    """time may pass: as soon as the code under test has created any timer, the virtual clock may
+    advance by a symbolic amount (<= 10 s) at any moment, at most n times.  Costs nothing while no
+    timer exists (the guard is false), so it is enabled in the scenario families that have no
+    clock of their own."""
+    w = s.w
+    left = [n]
+
+    def can():
+        return left[0] > 0 and len(w.deadlines) > 0 and any(t.state == "running" for t in w.tasks)
+
+    def tick():
+        left[0] -= 1
+        dt = ex.sym("adt%d" % left[0], 64)
+        ex.assume(z3.ULE(dt, max_ns))
+        w.advance(dt)
+    s.extra_actions.append((can, tick, "time-passes"))
+
+
 MONITORS = {
     "C01": [M.mon_c01], "C02": [M.mon_c02], "C03": [M.mon_c03], "C04": [M.mon_c04], "C05": [M.mon_c05],
-    "C06": [M.mon_c06], "C07": [M.mon_c07], "C08": [M.mon_c08], "C09": [M.mon_c09], "C13": [M.mon_c13],
+    "C06": [M.mon_c06], "C07": [M.mon_c07, M.mon_c07_work], "C08": [M.mon_c08], "C09": [M.mon_c09], "C13": [M.mon_c13],
     "C12": [M.mon_c04, M.mon_c05, M.mon_c03, M.mon_c01, M.mon_c02],
+    "C19": [M.mon_c19_runtime],
 }
 
 
@@ -71,6 +91,7 @@ def senders(prog, ex, P, tier):
     if v["cause"] == "stop":
         s.client("c3", [("stop", "A")], ["A"])
     s.drop_main("A")
+    allow_time(s, ex)
     s.run(80)
     tr = finish(ex, s)
     apply(tr, P, cap=cap)
@@ -133,6 +154,7 @@ def drop_immediately(prog, ex, P, tier):
     s.client("c1", [("tell", "A", 1), ("tell", "A", 2), ("drop", "A")], ["A"])
     s.client("c2", [("tell", "A", 3), ("drop", "A")], ["A"])
     s.drop_main("A")
+    allow_time(s, ex)
     s.run(80)
     tr = finish(ex, s)
     apply(tr, P, cap=cap)
@@ -187,6 +209,7 @@ def endings(prog, ex, P, tier):
         # a prober that keeps a reference and asks at an arbitrary later moment
         s.client("late", [("yield",), ("ask", "A", 9)], ["A"])
     s.drop_main("A")
+    allow_time(s, ex)
     s.run(90)
     tr = finish(ex, s)
     apply(tr, P, cap=cap)
@@ -207,6 +230,7 @@ def kill_preempts(prog, ex, P, tier):
     s.client("c1", [("tell", "A", 1), ("tell", "A", 2), ("ask", "A", 3)], ["A"])
     s.client("ck", [("kill", "A")] + ([("kill", "A")] if tier != "quick" else []), ["A"], keep_refs=True)
     s.drop_main("A")
+    allow_time(s, ex)
     s.run(90)
     tr = finish(ex, s)
     apply(tr, P, cap=3)
@@ -222,6 +246,7 @@ def idle_handler(prog, ex, P, tier):
     s = Sim(prog, ex)
     s.spawn_actor(sc, pick(ex, [1, 2], "cap"))
     s.client("c1", [("tell", "A", 1), ("yield",), ("tell", "A", 2), ("ask", "A", 3)], ["A"], keep_refs=True)
+    allow_time(s, ex)
     s.run(90)
     tr = finish(ex, s)
     apply(tr, P)
@@ -233,6 +258,49 @@ def idle_handler(prog, ex, P, tier):
             for o in tr.ops().values():
                 if o["op"][0] == "ask":
                     ex.check(P, M.rcode(o["result"]) == "ok", "actor stopped serving messages after on_run returned Ok(false): %s" % o["result"])
+
+
+def slow_start(prog, ex, P, tier):
+    """senders flooding an actor whose on_start is still suspended (capacity 1-2, capacity+2
+    sends from two clients), then normal service; optionally stopped"""
+    cap = pick(ex, [1, 2], "cap")
+    end = pick(ex, ["drop", "stop"], "end")
+    s = Sim(prog, ex)
+    sc = Script("A")
+    sc.on_start = ("ok", 2)
+    s.spawn_actor(sc, cap)
+    s.client("c1", [("tell", "A", 1), ("tell", "A", 2)], ["A"])
+    s.client("c2", [("tell", "A", 3)] + ([("ask", "A", 4)] if cap == 2 else []), ["A"])
+    if end == "stop":
+        s.client("cs", [("stop", "A")], ["A"])
+    s.drop_main("A")
+    allow_time(s, ex)
+    s.run(90)
+    tr = finish(ex, s)
+    apply(tr, P, cap=cap)
+    if P != "C04":
+        M.mon_c04(tr)
+
+
+def long_idle(prog, ex, P, tier):
+    """a long run of idle work: on_run returns Ok(true) N times in a row without ever suspending
+    (the documented "one backlog item per idle call" pattern), then Ok(false); N = 140 (thorough
+    260).  Threshold-dependent behaviour of the idle path shows up here; messages are served
+    before and after."""
+    N = 140 if tier == "quick" else 260
+    variant = pick(ex, ["idle-only", "message-in-the-middle"], "variant")
+    sc = Script("A", on_run=[("true", 0)] * N + [("false", 0)])
+    s = Sim(prog, ex)
+    ex.max_steps = max(ex.max_steps, 4000 * N)
+    s.spawn_actor(sc, 2)
+    if variant == "message-in-the-middle":
+        s.client("c1", [("tell", "A", 1), ("ask", "A", 2)], ["A"], keep_refs=True)
+    s.run(40)
+    tr = finish(ex, s)
+    apply(tr, P)
+    runs = len(tr.hook("A", "on_run", "hook_exit"))
+    ex.check(P, runs == N + 1, "on_run returned Ok(true) but was not run again when idle: %d of %d scripted invocations happened" % (runs, N + 1))
+    M.mon_c07(tr, "A", expect_alive=True)
 
 
 def ref_histories(prog, ex, P, tier):
@@ -262,6 +330,7 @@ def ref_histories(prog, ex, P, tier):
         s.client("c1", [("tell", "A", 1), ("yield",), ("is_alive", "A"), ("ask", "A", 2)], ["A"], keep_refs=True)
         alive = True
     s.drop_main("A")
+    allow_time(s, ex)
     s.run(90)
     tr = finish(ex, s)
     apply(tr, P)
@@ -281,8 +350,8 @@ def ref_histories(prog, ex, P, tier):
 def timeouts(prog, ex, P, tier):
     """tell_with_timeout / ask_with_timeout with a symbolic timeout d, symbolic clock increments,
     mailbox free / full, actor answering / slow / dying"""
-    kind = pick(ex, ["tell_t", "ask_t"], "op")
-    state = pick(ex, ["free", "full", "dying", "full+dying"], "mailbox")
+    kind = pick(ex, ["tell_t", "ask_t"] + (["tell", "ask"] if P in ("C13", "C01") else []), "op")
+    state = pick(ex, ["free", "full", "dying", "full+dying"] if kind.endswith("_t") else ["full+dying", "dying"], "mailbox")
     slow = pick(ex, [0, 2], "handler-yields")
     s = Sim(prog, ex)
     w = s.w
@@ -295,7 +364,7 @@ def timeouts(prog, ex, P, tier):
         s.run_fair_until_client_done = True
         # let c0 fill the mailbox before anything else happens
         w.poll_task(s.it, s.w.tasks[1])
-    ops = [(kind, "A", 1, d)]
+    ops = [(kind, "A", 1, d)] if kind.endswith("_t") else [(kind, "A", 1)]
     s.client("c1", ops, ["A"])
     if state.endswith("dying"):
         s.client("ck", [("kill", "A")], ["A"])
@@ -545,6 +614,40 @@ def identity(prog, ex, P, tier):
     M.mon_c07(tr, "A")
 
 
+def id_reuse(prog, ex, P, tier):
+    """ids over time: an actor ends by each cause (also a failed / panicking on_start), then
+    further actors are spawned: no id is ever handed out twice, and the handles of the ended
+    actor keep reporting its id"""
+    cause = pick(ex, ["on_start_err", "on_start_panic", "stop", "kill", "drop", "on_run_err", "handler_panic"], "cause")
+    s = Sim(prog, ex)
+    w = s.w
+    a = s.spawn_actor(script_for(cause, 0), 1)
+    ida = w.describe(a["id"])
+    c1 = s.client("c1", [("downgrade", "A"), ("tell", "A", 1), ("tell", "A", 2)], ["A"], keep_refs=True)
+    if cause == "stop":
+        s.client("cs", [("stop", "A")], ["A"])
+    if cause == "kill":
+        s.client("ck", [("kill", "A")], ["A"])
+    s.drop_main("A")
+    s.run(60)
+    b = s.spawn_actor(Script("B"), 1)
+    c = s.spawn_actor(Script("C"), 1)
+    s.drop_main("B")
+    s.drop_main("C")
+    s.run(60)
+    tr = finish(ex, s)
+    ids = [ida, w.describe(b["id"]), w.describe(c["id"])]
+    ex.check("C11", len(set(ids)) == 3, "an id was handed out twice: A(%s, ended by %s)=%s, later spawns B=%s, C=%s" % (cause, cause, ids[0], ids[1], ids[2]))
+    cell = c1.refs.get("A")
+    if cell is not None and cell.value is not MOVED:
+        again = w.call_method(s.it, "ActorRef", "identity", [Ref(cell, (), False)])
+        ex.check("C11", w.describe(again.fields[0]) == ida, "a kept handle of the ended actor now reports id %s (was %s)" % (w.describe(again.fields[0]), ida))
+    wk = c1.weak.get("A")
+    if wk is not None:
+        again = w.call_method(s.it, "ActorWeak", "identity", [Ref(wk, (), False)])
+        ex.check("C11", w.describe(again.fields[0]) == ida, "a weak handle of the ended actor now reports id %s (was %s)" % (w.describe(again.fields[0]), ida))
+
+
 def id_alloc(prog, ex, P, tier):
     """identity allocation under concurrent spawning.  Two "threads" (separate thread-local
     storage) each perform K consecutive real `spawn_with_mailbox_capacity` calls.  Every atomic
@@ -705,7 +808,7 @@ def metrics_scn(prog, ex, P, tier):
     def tick():
         ticks[0] -= 1
         dt = ex.sym("dt%d" % ticks[0], 64)
-        ex.assume(z3.ULE(dt, 5))
+        ex.assume(z3.ULE(dt, 5 * 10 ** 9))     # up to 5 s: unit conversions (ns / ms / s) are in range
         # is a handler in progress right now?  (entered, not exited)
         ent = sum(1 for e in ex.events if e["ev"] == "hook_enter" and e["hook"] == "handler")
         exi = sum(1 for e in ex.events if e["ev"] in ("hook_exit", "hook_dropped") and e["hook"] == "handler" and e["ev"] == "hook_exit")
@@ -808,7 +911,8 @@ def graph_edges(s):
 def deadlock_cycles(prog, ex, P, tier):
     """ask cycles of length 1..3 with the closing ask in a handler / on_start / on_run / on_stop,
     plain ask or ask_with_timeout, every creation order of the edges (the scheduler's choice)"""
-    shape = pick(ex, ["self-handler", "self-on_run", "2cycle", "2cycle-timeout", "3cycle", "2cycle-on_stop", "2cycle-full-mailbox"], "shape")
+    shape = pick(ex, ["self-handler", "self-on_run", "2cycle", "2cycle-timeout", "3cycle", "2cycle-on_stop", "2cycle-full-mailbox",
+                      "self-on_stop-after-run-err", "2cycle-on_stop-after-run-err", "self-on_start", "self-on_stop"], "shape")
     s = Sim(prog, ex)
     w = s.w
     A, B, C = Script("A"), Script("B"), Script("C")
@@ -834,6 +938,19 @@ def deadlock_cycles(prog, ex, P, tier):
         A.on_stop_actions = [("ask", "B", 12)]
         B.handler_actions = {12: [("ask", "A", 13)]}
         names = ["A", "B"]
+    elif shape == "self-on_stop-after-run-err":
+        # the clean-up on_stop that follows an on_run error asks its own actor
+        A.on_run = [("err", 0)]
+        A.on_stop_actions = [("ask", "A", 2)]
+    elif shape == "2cycle-on_stop-after-run-err":
+        A.on_run = [("err", 0)]
+        A.on_stop_actions = [("ask", "B", 12)]
+        B.handler_actions = {12: [("ask", "A", 13)]}
+        names = ["A", "B"]
+    elif shape == "self-on_start":
+        A.on_start_actions = [("ask", "A", 2)]
+    elif shape == "self-on_stop":
+        A.on_stop_actions = [("ask", "A", 2)]
     else:
         A.handler_actions = {1: [("ask", "B", 11)]}
         B.handler_actions = {11: [("ask", "C", 21)]}
@@ -845,8 +962,10 @@ def deadlock_cycles(prog, ex, P, tier):
     for n in names:
         for m in names:
             s.give_ref(n, m)
-    if shape == "2cycle-on_stop":
+    if shape in ("2cycle-on_stop", "self-on_stop"):
         s.client("c1", [("stop", "A")], ["A"])
+    elif shape in ("self-on_stop-after-run-err", "2cycle-on_stop-after-run-err", "self-on_start"):
+        s.client("c1", [("yield",)], ["A"])
     elif shape == "2cycle-full-mailbox":
         s.client("c0", [("tell", "B", 5), ("tell", "B", 6)], ["B"])
         s.client("c1", [("yield",), ("ask", "A", 1)], ["A"])
@@ -874,6 +993,119 @@ def deadlock_cycles(prog, ex, P, tier):
         for o in tr.ops().values():
             ex.check("C14", o["done"] is not None, "client operation %s never completed" % (o["op"],))
     ex.check(P, graph_edges(s) == [], "no ask is in flight any more but the wait-for graph still holds %s" % graph_edges(s))
+
+
+def inflight_asks(tr, upto):
+    """asks issued by hooks that are in flight just before trace index `upto`: registered at the
+    asker (first poll happened, the future neither completed nor dropped nor panicked).
+    `answered` = the target's handler for that message has already produced its result, or the
+    target's task is over (the ask has failed): such an ask no longer makes anybody wait."""
+    st = {}
+    for e in tr.ev[:upto]:
+        k = e["ev"]
+        if k == "action_start" and e.get("kind") in ("ask", "ask_t") and e.get("by"):
+            st[e["aid"]] = dict(aid=e["aid"], by=e["by"], target=e["target"], msg=e["msg"], polled=False, over=False)
+        elif k == "action_polled" and e["aid"] in st:
+            st[e["aid"]]["polled"] = True
+        elif k in ("action_done", "action_dropped", "action_panicked") and e.get("aid") in st:
+            st[e["aid"]]["over"] = True
+    live = [a for a in st.values() if a["polled"] and not a["over"]]
+    for a in live:
+        tname = tr.w.actors[a["target"]]["task"].name
+        a["answered"] = any(
+            (e["ev"] == "hook_exit" and e.get("hook") == "handler" and e.get("actor") == a["target"] and e.get("msg") == a["msg"])
+            or (e["ev"] in ("task_finished", "task_panicked") and e.get("task") == tname)
+            for e in tr.ev[:upto])
+    return live
+
+
+def wait_chain(edges, frm, to):
+    seen, todo = set(), [frm]
+    while todo:
+        x = todo.pop()
+        if x == to:
+            return True
+        if x in seen:
+            continue
+        seen.add(x)
+        todo.extend(e["target"] for e in edges if e["by"] == x)
+    return False
+
+
+def judge_deadlock_panics(tr, ex, P="C15", kid="KF-C15-1"):
+    """C15, first sentence: every deadlock panic must be justified by a chain of UNANSWERED
+    in-flight asks from the asked actor back to the asking one, at that moment"""
+    for i, e in enumerate(tr.ev):
+        if e["ev"] != "action_panicked" or "eadlock" not in str(e.get("msg")):
+            continue
+        caller, callee = e["by"], e["target"]
+        if caller == callee:
+            continue
+        live = [a for a in inflight_asks(tr, i) if a["aid"] != e["aid"]]
+        if wait_chain([a for a in live if not a["answered"]], callee, caller):
+            continue                                    # a real cycle of unanswered asks
+        stale = [a for a in live if a["answered"]]
+        if wait_chain(live, callee, caller):
+            # the only path back runs through an ask that HAS been answered (or has failed) but whose
+            # asker has not been polled since, so its wait-for edge is still registered
+            ex.known_finding(kid, P, "deadlock panic in %s asking %s without a cycle of unanswered asks: the path back runs through %s, "
+                             "already answered but not yet collected by the asker" % (caller, callee, ["%s->%s(msg %s)" % (a["by"], a["target"], a["msg"]) for a in stale]))
+            continue
+        ex.check(P, False, "deadlock panic in %s asking %s, but no chain of in-flight asks leads from %s back to %s (in flight: %s)" % (
+            caller, callee, callee, caller, ["%s->%s" % (a["by"], a["target"]) for a in live]))
+
+
+def deadlock_reply_window(prog, ex, P, tier):
+    """C15's "every interleaving of reply delivery with the callee's next message": the callee B
+    answers A's ask and goes on to a message that was queued behind it and whose handler asks A
+    back, possibly before A's task has collected the reply.  Also with two concurrent asks of one
+    hook (join!) where the later-registered one is answered first."""
+    shape = pick(ex, ["queued-reverse", "join-fast-then-reverse"] + (["join-from-handler"] if tier != "quick" else []), "shape")
+    s = Sim(prog, ex)
+    w = s.w
+    A, B, C = Script("A"), Script("B"), Script("C")
+    names = ["A", "B"]
+    if shape == "queued-reverse":
+        A.handler_actions = {1: [("ask", "B", 11)]}
+        B.handler_actions = {5: [("ask", "A", 12)]}
+        s.spawn_actor(A, 2)
+        s.spawn_actor(B, 2)
+        clients = [("c1", [("ask", "A", 1)], ["A"]), ("c2", [("ask", "B", 5)], ["B"])]
+    elif shape == "join-fast-then-reverse":
+        # A's idle hook has two asks in flight at once; C answers, B does not yet; then C asks A
+        names = ["A", "B", "C"]
+        A.on_run = [("false", 0)]
+        A.on_run_actions = [("join", ("ask", "B", 11), ("ask", "C", 21))]
+        B.handler_yields = {11: "tick"}
+        C.handler_actions = {25: [("ask", "A", 12)]}
+        for n_, sc_ in (("A", A), ("B", B), ("C", C)):
+            s.spawn_actor(sc_, 2)
+        clients = [("c2", [("ask", "C", 25)], ["C"])]
+        ticks = [1]
+        s.extra_actions.append((lambda: ticks[0] > 0 and not any(t.state == "running" and t.name.startswith("client:") for t in w.tasks),
+                                lambda: (ticks.__setitem__(0, 0), w.advance(1)), "clock-advance"))
+    else:
+        names = ["A", "B", "C"]
+        A.handler_actions = {1: [("join", ("ask", "B", 11), ("ask", "C", 21))]}
+        B.handler_yields = {11: 1}
+        C.handler_actions = {25: [("ask", "A", 12)]}
+        for n_, sc_ in (("A", A), ("B", B), ("C", C)):
+            s.spawn_actor(sc_, 2)
+        clients = [("c1", [("ask", "A", 1)], ["A"]), ("c2", [("ask", "C", 25)], ["C"])]
+    for n_ in names:
+        for m_ in names:
+            if n_ != m_:
+                s.give_ref(n_, m_)
+    for nm, ops, refs in clients:
+        s.client(nm, ops, refs)
+    for n_ in names:
+        s.drop_main(n_)
+    s.run(120)
+    tr = finish(ex, s)
+    judge_deadlock_panics(tr, ex, P)
+    all_done = all(o["done"] is not None for o in tr.ops().values()) and all(t.state != "running" for t in w.tasks)
+    if all_done:
+        ex.check(P, graph_edges(s) == [], "every ask has finished but the wait-for graph still holds %s" % graph_edges(s))
 
 
 def deadlock_sound(prog, ex, P, tier):
@@ -927,7 +1159,12 @@ def deadlock_sound(prog, ex, P, tier):
     s.run(120)
     tr = finish(ex, s)
     dl = [e for e in tr.ev if e["ev"] == "panic" and "eadlock" in str(e.get("msg"))]
-    ex.check("C15", not dl, "deadlock panic without a cycle of unanswered asks (%s): %s" % (shape, [e.get("msg") for e in dl]))
+    judge_deadlock_panics(tr, ex, "C15")
+    judged = [e for e in tr.ev if e["ev"] == "action_panicked" and "eadlock" in str(e.get("msg"))]
+    ex.check("C15", len(dl) <= len(judged), "deadlock panic outside a scripted ask (%s): %s" % (shape, [e.get("msg") for e in dl]))
+    if shape != "non-actor-callers":
+        # these patterns are acyclic in time: no ask is in flight when the reverse one starts
+        ex.check("C15", not dl or any(e["ev"] == "known_finding" for e in tr.ev), "deadlock panic without a cycle of unanswered asks (%s): %s" % (shape, [e.get("msg") for e in dl]))
     all_done = all(o["done"] is not None for o in tr.ops().values()) and all(t.state != "running" for t in w.tasks)
     if all_done:
         ex.check("C15", graph_edges(s) == [], "every ask has finished but the wait-for graph still holds %s" % graph_edges(s))
@@ -1001,6 +1238,7 @@ def burst(prog, ex, P, tier):
     if mode.endswith("+stop"):
         s.client("cs", [("stop", "A")], ["A"])
     s.drop_main("A")
+    allow_time(s, ex)
     s.run(120)
     tr = finish(ex, s)
     apply(tr, P, cap=n + 2)
@@ -1020,11 +1258,14 @@ def blocking(prog, ex, P, tier):
         dict(cap=1, hy="tick", ops=[("bask_t", "A", 1, 5)], other=None, end="drop"),            # actor never answers in time
         dict(cap=1, hy="tick", ops=[("btell", "A", 1), ("btell_t", "A", 2, 5), ("btell_t", "A", 3, 5)], other=None, end="drop"),   # mailbox stays full
         dict(cap=1, hy=0, ops=[("btell", "A", 1), ("yield",), ("btell", "A", 2), ("bask", "A", 3), ("btell_t", "A", 4, 9), ("bask_t", "A", 5, 9)], other=None, end="killfirst"),
+        # one deadline for the whole call: the mailbox frees up at t=3 (inside the timeout of 5), the reply would come at t=7
+        dict(cap=1, hy={1: ("sleep", 3), 7: ("sleep", 1), 2: ("sleep", 3)}, ops=[("btell", "A", 1), ("btell", "A", 7), ("bask_t", "A", 2, 5)], other=None, end="drop"),
+        dict(cap=1, hy={1: ("sleep", 3), 7: ("sleep", 1), 2: ("sleep", 3)}, ops=[("btell", "A", 1), ("btell", "A", 7), ("btell_t", "A", 2, 5), ("bask_t", "A", 3, 2)], other=None, end="drop"),
     ], "variant")
     PP = "C16" if P == "C16" else "C17"
     s = Sim(prog, ex)
     w = s.w
-    s.spawn_actor(Script("A", handler_yields={"*": v["hy"]}), v["cap"])
+    s.spawn_actor(Script("A", handler_yields=(v["hy"] if isinstance(v["hy"], dict) else {"*": v["hy"]})), v["cap"])
     th = s.client("thread", v["ops"], ["A"])
     if P == "C16":
         # the same calls through Box<dyn TellHandler> / Box<dyn AskHandler>
@@ -1094,10 +1335,60 @@ def projection(tr):
 
 
 def feature_suite(prog, ex, P, tier):
-    v = pick(ex, ["tell-ask-drop", "two-clients-stop", "kill", "on_run", "timeout", "on_run_err", "handler_panic", "on_start_err", "peer-asks"], "variant")
+    v = pick(ex, ["tell-ask-drop", "two-clients-stop", "kill", "on_run", "timeout", "on_run_err", "handler_panic", "on_start_err", "peer-asks", "reply-window", "peer-tell-full"], "variant")
     s = Sim(prog, ex)
     w = s.w
     sc = Script("A")
+    if v == "peer-tell-full":
+        # B (capacity 1) waits, with a timeout, for A; B's only slot is taken; A's handler tells B.
+        # Nobody asks in a cycle: A's tell just waits for the slot that frees when B's ask times out.
+        sc.handler_actions = {1: [("yield",), ("tell", "B", 21)]}
+        sb = Script("B")
+        sb.handler_actions = {5: [("ask_t", "A", 12, 3)]}
+        s.spawn_actor(sc, 2)
+        s.spawn_actor(sb, 1)
+        s.give_ref("A", "B")
+        s.give_ref("B", "A")
+        s.client("c1", [("tell", "A", 1), ("tell", "B", 5), ("tell", "B", 20)], ["A", "B"])
+        s.drop_main("A")
+        s.drop_main("B")
+        ticks = [1]
+        s.extra_actions.append((lambda: ticks[0] > 0 and any(e["ev"] == "action_start" and e.get("kind") == "tell" for e in ex.events),
+                                lambda: (ticks.__setitem__(0, 0), w.advance(5)), "clock-advance"))
+        s.run(120)
+        tr = finish(ex, s)
+        ex.projection = projection(tr)
+        return
+    if v == "reply-window":
+        # no ask cycle at any time: B answers A's ask and only then handles a message (queued
+        # behind it) whose handler asks A.  See KF-C15-1 / KF-C18-1.
+        sc.handler_actions = {1: [("ask", "B", 11)]}
+        sb = Script("B")
+        sb.handler_actions = {5: [("ask", "A", 12)]}
+        s.spawn_actor(sc, 2)
+        s.spawn_actor(sb, 2)
+        s.give_ref("A", "B")
+        s.give_ref("B", "A")
+        s.client("c1", [("ask", "A", 1)], ["A"])
+        s.client("c2", [("ask", "B", 5)], ["B"])
+        s.drop_main("A")
+        s.drop_main("B")
+        s.run(120)
+        tr = finish(ex, s)
+        # a REAL cycle (both asks unanswered and in flight) is outside C18's premise: such paths
+        # are left out of the comparison in every build
+        real = False
+        for i, e in enumerate(tr.ev):
+            if e["ev"] == "action_polled":
+                live = [a for a in inflight_asks(tr, i + 1) if not a["answered"]]
+                if any(wait_chain(live, a["target"], a["by"]) for a in live):
+                    real = True
+        if real:
+            ex.projection = None
+            return
+        judge_deadlock_panics(tr, ex, "C18", "KF-C18-1")
+        ex.projection = None if ex.known else projection(tr)
+        return
     if v == "peer-asks":
         # A's handler asks B with a timeout that expires (B is slow), later B's handler asks A:
         # no ask cycle at any time
